@@ -47,6 +47,7 @@ type Interp struct {
 	SortTies    bool // ... and equal keys belong to different items (several valid results)
 	OrderLeak   bool // the string form of a map with unspecified iteration order was taken
 	Unspecified bool // an edge the documentation leaves open was touched
+	Rounded     bool // a numeric method with inherently rounded results ran (compare with a tolerance)
 	Inexact     bool // a float product was rounded (regrouping by the optimizer may change the last bit)
 }
 
@@ -195,6 +196,9 @@ func (in *Interp) Eval(e *lang.Expr, env *Env) (Value, error) {
 		if !ok {
 			return nil, Errf("method %s not found on %s", e.S, TypeName(recv))
 		}
+		if l, isList := recv.(*List); isList && l.Unordered && len(l.Items) > 1 && !orderInsensitive[e.S] {
+			in.OrderLeak = true // an order-sensitive use of a list whose order is unspecified
+		}
 		if me.Min >= 0 && (len(e.X)-1 < me.Min || len(e.X)-1 > me.Max) && !me.CheckInside {
 			return nil, Errf("wrong number of arguments at call of %s", e.S)
 		}
@@ -281,6 +285,9 @@ func (in *Interp) Eval(e *lang.Expr, env *Env) (Value, error) {
 		if err != nil {
 			return nil, err
 		}
+		if ll, ok := l.(*List); ok && ll.Unordered && len(ll.Items) > 1 {
+			in.OrderLeak = true
+		}
 		return IndexList(l, i)
 	case lang.KMember:
 		m, err := in.Eval(e.X[0], env)
@@ -339,6 +346,9 @@ func (in *Interp) Apply(clo *Closure, args []Value) (Value, error) {
 	}
 	return clo.Call(args)
 }
+
+var orderInsensitive = map[string]bool{"size": true, "map": true, "accept": true, "sum": true, "mean": true, "min": true, "max": true,
+	"order": true, "orderRev": true, "groupByString": true, "groupByInt": true, "groupByEqual": true, "uniqueString": true, "uniqueInt": true, "eval": true}
 
 // IndexList is list[index].
 func IndexList(l, i Value) (Value, error) {
